@@ -216,7 +216,9 @@ func (api *API) encodeStructFields(
 			fieldType := sField.fType
 			if fieldValue.Kind() == reflect.Ptr {
 				if fieldValue.IsNil() {
-					continue
+					// the fields of an embedded struct are always expected during deserialization,
+					// so a nil pointer can't be skipped (same as for any other non-optional nil pointer)
+					return ierrors.Errorf("unexpected nil pointer for embedded struct %s", sField.name)
 				}
 				fieldValue = fieldValue.Elem()
 				fieldType = fieldType.Elem()
